@@ -143,6 +143,8 @@ class BaseDomain:
         return self.sym_minmax(name, list(args))
 
     def sym_minmax(self, name, args):
+        if any(isinstance(a, Opaque) for a in args):
+            return Opaque(name)
         ps = [Poly.lift(a) for a in args]
         # constants fold, identical values fold
         uniq = {}
@@ -281,6 +283,11 @@ class BaseDomain:
         raise Unsupported(f"truth value of {type(v).__name__}")
 
     def binop(self, interp, op, a, b, node):
+        # a truth value of unknown outcome used as a number (e.g. `den = inv + (inv == 0)`): ask the chooser
+        if is_unknown(a) and interp is not None:
+            a = interp.decide(node, a)
+        if is_unknown(b) and interp is not None:
+            b = interp.decide(node, b)
         r = op(a, b)
         if r is NotImplemented:
             raise TypeError("unsupported operand types")
